@@ -1221,7 +1221,8 @@ class AttributeVariable(FormatDirective):
     def print(self, printer: Printer, state: PrintingState, op: IRDLOperation) -> None:
         attr = self.get(op)
 
-        if attr is None or attr == self.default_value:
+        # A default value can only be left out where the parser accepts its absence.
+        if attr is None or (self.is_optional and attr == self.default_value):
             return
 
         state.print_whitespace(printer)
